@@ -112,6 +112,9 @@ def read_bytes(
 
     for bom, prefix, encoding in _xml_prefixes:
         if body.startswith(bom):
+            if encoding.endswith(('-be', '-le')):
+                # the endian-specific codecs do not consume the byte-order mark
+                body = body[len(bom):]
             document = body.decode(encoding)
             return document, encoding, \
                 "text/xml" if document.startswith("<?xml") else None
